@@ -284,7 +284,13 @@ def parse_pa(output):
         if mode == 7:
             s.setdefault(7, {})[start] = (oc, m.group(2))
         else:
-            s[mode] = (oc, vismask, m.group(2))
+            alt = (oc, vismask, m.group(2))          # a reader may have several admissible outcomes (read-ahead)
+            if alt not in s.setdefault(mode, []):
+                s[mode].append(alt)
+    for s in shapes.values():
+        for mode in s:
+            if mode != 7:
+                s[mode].sort(reverse=True)
     return shapes, n_lines
 
 
@@ -419,17 +425,18 @@ def attack_results(ctx, judge, cases, meta, results):
                         drift = f"entry {s}: model {'ok' if want_ok else 'error:' + e7[s][1]}, real {got}:{per[s - 1][1]}"
                 case = f"attack expect={label}" if label else "attack"
             else:
-                oc, vismask, err = exp[mode]
+                alts = exp[mode]
                 new = sorted(set(ev["post"]) - set(ev["pre"]))
                 got_mask = sum(1 << (rev[h] - 1) for h in new if h in rev and rev[h] <= n)
                 foreign = [h for h in new if h not in rev]
                 real_ok = ev["outcome"] == "ok"
                 if ev["outcome"] in ("ok", "error"):
-                    if real_ok != bool(oc):
-                        drift = f"model {'ok' if oc else 'error:' + err}, real {ev['outcome']}:{ev.get('exc')}"
-                    elif real_ok and p != "stream" and (got_mask != vismask or foreign):
-                        drift = f"model visible mask {vismask}, real {got_mask} foreign={len(foreign)}"
-                case = f"attack expect={'ok' if oc else err}"
+                    if not any(bool(oc) == real_ok and (not real_ok or p == "stream" or (got_mask == vismask and not foreign))
+                               for (oc, vismask, err) in alts):
+                        want = " | ".join(f"ok visible={vm}" if oc else "error:" + err for (oc, vm, err) in alts)
+                        drift = f"model {want}; real {ev['outcome']}:{ev.get('exc')} visible={got_mask} foreign={len(foreign)}"
+                errs = [err for (oc, vm, err) in alts if not oc]
+                case = f"attack expect={errs[0] if errs else 'ok'}"
             judge.add_event(o, {"site": SITE[p], "case": case, "cls": "attack", "shape": skey,
                                 "replay": {"case": dict(cases[cid], paths=[p])}, "ev": ev, "drift": drift})
             ctx.nontrivial(("attack", skey, p))
@@ -440,7 +447,7 @@ def attack_results(ctx, judge, cases, meta, results):
                 f"real code {'exhibits' if x['real_code_exhibits_it'] else 'does not exhibit'} it ({x['real_outcome']})")
     if first is not None:
         ctx.sample({"kind": "structural attack", "shape": L.shape_key(meta[first][1]),
-                    "model": {MODE_PATHS[m][0]: ("ok" if v[0] else "error:" + v[2]) for m, v in meta[first][2].items() if m != 7},
+                    "model": {MODE_PATHS[m][0]: " | ".join("ok" if a[0] else "error:" + a[2] for a in v) for m, v in meta[first][2].items() if m != 7},
                     "real": [{k2: e.get(k2) for k2 in ("path", "outcome", "exc", "wall_ms")} for e in results[first]["events"]]})
 
 
